@@ -19,6 +19,8 @@ import (
 	"errors"
 	"fmt"
 	"math"
+	"os"
+	"reflect"
 	"sort"
 	"strings"
 
@@ -40,6 +42,7 @@ import (
 
 const (
 	sigShare  = "identity-cid-encoder:same-glyph-different-text"
+	sigRecode = "cidenc-fromcmap:code-remapped-by-child-cmap"
 	widthTol  = 0.0005 + 1e-9 // widths are rounded to 1/1000 text space unit
 	agreeTol  = 1e-9
 	sigPrefix = "c14:"
@@ -91,14 +94,36 @@ type repertoire struct {
 
 var repCache = map[string]*repertoire{}
 
-func repertoireOf(label string, F font.Layouter) *repertoire {
+func repertoireOf(k kind, F font.Layouter) *repertoire {
+	label := k.label
 	if r, ok := repCache[label]; ok {
 		return r
 	}
 	r := &repertoire{}
+	// fonts encoded through a predefined CMap only reach the glyphs of the character
+	// collection: probe with a separate, untraced instance
+	var probe font.Layouter
+	if k.enc == "cmap" {
+		probe = k.make(&tracer{mute: true})
+	}
+	encodable := func(g font.Glyph) bool {
+		if probe == nil {
+			return true
+		}
+		code, ok := probe.Encode(g.GID, g.Text)
+		if !ok {
+			return false
+		}
+		for c := range probe.Codes(probe.Codec().AppendCode(nil, code)) {
+			if c.CID == 0 {
+				return false
+			}
+		}
+		return true
+	}
 	for _, c := range candidates {
 		seq := F.Layout(nil, 10, string(c))
-		if len(seq.Seq) != 1 || seq.Seq[0].GID == 0 {
+		if len(seq.Seq) != 1 || seq.Seq[0].GID == 0 || !encodable(seq.Seq[0]) {
 			continue
 		}
 		if c < 0x7F {
@@ -110,7 +135,7 @@ func repertoireOf(label string, F font.Layouter) *repertoire {
 	for _, s := range []string{"fi", "fl", "ffi", "ffl", "ﬁ", "ﬂ"} {
 		ok := true
 		for _, g := range F.Layout(nil, 10, s).Seq {
-			if g.GID == 0 {
+			if g.GID == 0 || !encodable(g) {
 				ok = false
 			}
 		}
@@ -118,11 +143,18 @@ func repertoireOf(label string, F font.Layouter) *repertoire {
 			r.ligs = append(r.ligs, s)
 		}
 	}
+	if os.Getenv("C14_DEBUG") != "" {
+		fmt.Fprintf(os.Stderr, "repertoire %s: latin %d other %d ligs %d\n", label, len(r.latin), len(r.other), len(r.ligs))
+	}
 	repCache[label] = r
 	return r
 }
 
 func (r *repertoire) text(class int, n int) string {
+	if len(r.latin) == 0 {
+		// e.g. 90ms-RKSJ-H reaches only the half-width and full-width forms of the collection
+		r = &repertoire{latin: r.other, other: r.other, ligs: r.ligs}
+	}
 	var sb strings.Builder
 	for i := 0; i < n; i++ {
 		switch {
@@ -161,6 +193,7 @@ type shown struct {
 	text  string
 	code  string // code bytes
 	share bool   // the code is already owned by the same glyph with another text (identity encoder)
+	recoded bool // NewFromCMap returned a code which the CMap maps to another CID
 }
 
 type liveFont struct {
@@ -174,13 +207,29 @@ type liveFont struct {
 	overflow bool
 	size     float64
 	shared   map[gkey]bool
+	cidw     *tracedCID // composite fonts: the tracing encoder
+	recodedCodes map[string]bool
+}
+
+func cidWrapperOf(F font.Layouter) *tracedCID {
+	v := reflect.ValueOf(F)
+	for v.Kind() == reflect.Pointer || v.Kind() == reflect.Interface {
+		v = v.Elem()
+	}
+	f := v.FieldByName("CIDEncoder")
+	if !f.IsValid() {
+		return nil
+	}
+	w, _ := f.Interface().(*tracedCID)
+	return w
 }
 
 func newLiveFont(k kind) *liveFont {
 	tr := newTracer()
 	F := k.make(tr)
-	lf := &liveFont{k: k, F: F, tr: tr, keys: map[gkey]string{}, owner: map[string]gkey{}, shared: map[gkey]bool{}, size: float64(6 + e.Rand.IntN(18))}
-	lf.rep = repertoireOf(k.label, F)
+	lf := &liveFont{k: k, F: F, tr: tr, keys: map[gkey]string{}, owner: map[string]gkey{}, shared: map[gkey]bool{}, recodedCodes: map[string]bool{}, size: float64(6 + e.Rand.IntN(18))}
+	lf.rep = repertoireOf(k, F)
+	lf.cidw = cidWrapperOf(F)
 	if !k.composite {
 		lf.api = encoderOf(F)
 		id := nextID()
@@ -198,6 +247,15 @@ func failShare(what string, c any) {
 	nShare++
 	if nShare <= 6 {
 		fail(sigShare, what, c)
+	}
+}
+
+var nRecode int
+
+func failRecode(what string, c any) {
+	nRecode++
+	if nRecode <= 6 {
+		fail(sigRecode, what, c)
 	}
 }
 
@@ -240,6 +298,9 @@ func (lf *liveFont) encode(g font.Glyph, fontIdx int) (shown, bool) {
 			}
 		}
 	} else {
+		if lf.cidw != nil {
+			lf.cidw.recoded = false
+		}
 		c, k := lf.F.Encode(g.GID, g.Text) // traced by the wrapped encoder
 		code, ok = c, k
 	}
@@ -248,6 +309,14 @@ func (lf *liveFont) encode(g font.Glyph, fontIdx int) (shown, bool) {
 	}
 	cb := string(lf.F.Codec().AppendCode(nil, code))
 	sh := shown{font: fontIdx, gid: g.GID, text: g.Text, code: cb}
+	if lf.cidw != nil && lf.cidw.mode == 'G' {
+		if lf.cidw.recoded {
+			lf.recodedCodes[cb] = true
+			failRecode(fmt.Sprintf("%s: glyph %d (text %q) is written with code %x, which the CMap maps to another CID", lf.k.label, g.GID, g.Text, cb),
+				map[string]any{"font": lf.k.label, "gid": g.GID, "text": g.Text, "code": fmt.Sprintf("%x", cb)})
+		}
+		sh.recoded = lf.recodedCodes[cb]
+	}
 	key := gkey{g.GID, g.Text}
 	if old, seen := lf.keys[key]; seen {
 		sh.share = lf.shared[key]
@@ -547,6 +616,13 @@ func readBack(data []byte, fonts []*liveFont, expect []shown, caseInfo map[strin
 		widths := lf.F.GetGeometry().Widths
 		for i, sh := range want {
 			ci := map[string]any{"font": lf.k.label, "gid": sh.gid, "text": sh.text, "code": fmt.Sprintf("%x", sh.code), "doc": caseInfo}
+			if sh.recoded {
+				// known finding: the code belongs to another CID; width and text of this glyph are not what is read back
+				if math.Abs(rc[i].Width-widths[sh.gid]) > widthTol || rc[i].Text != sh.text {
+					failRecode(fmt.Sprintf("%s: glyph %d (text %q, advance %g) reads back through code %x as text %q, width %g", lf.k.label, sh.gid, sh.text, widths[sh.gid], sh.code, rc[i].Text, rc[i].Width), ci)
+				}
+				continue
+			}
 			if math.Abs(rc[i].Width-wc[i].Width) > agreeTol {
 				fail("writer-reader-width", fmt.Sprintf("%s: code %x: writer width %g, reader width %g", lf.k.label, sh.code, wc[i].Width, rc[i].Width), ci)
 			}
